@@ -27,6 +27,8 @@ func main() {
 	tieRuns := flag.Int("tieruns", 0, "election-tie histories per run (c01)")
 	tieBlocks := flag.Int("tieblocks", 14, "blocks per election-tie history (c01)")
 	procRuns := flag.Int("procruns", 0, "how many standard and how many tie histories also run every replica in its own process (c01)")
+	rtRuns := flag.Int("rtruns", 0, "how many of the standard histories (the last ones) register two runtimes (c01)")
+	runtimes := flag.Bool("runtimes", false, "replica mode: runtimes genesis")
 	tie := flag.Bool("tie", false, "replica mode: election-tie genesis")
 	idx := flag.Int("idx", 0, "replica mode: configuration index")
 	flag.Parse()
@@ -39,9 +41,9 @@ func main() {
 			defer os.RemoveAll(d)
 			*out = d
 		}
-		c01Main(*seed, *out, *blocks, *runs, *replay, *noBg, *tieRuns, *tieBlocks, *procRuns)
+		c01Main(*seed, *out, *blocks, *runs, *replay, *noBg, *tieRuns, *tieBlocks, *procRuns, *rtRuns)
 	case "replica":
-		replicaMain(*seed, *tie, *idx, !*noBg)
+		replicaMain(*seed, *tie, *runtimes, *idx, !*noBg)
 	case "smoke2":
 		smoke2(*seed)
 	default:
